@@ -16,12 +16,104 @@ GEN_AVOID = {"unsigned_byte"}
 
 
 # operators with several distinct damaged values: that many consecutive variants are enumerated per node
-VARIANTS = {"harmless": 2, "base64": 4, "xsliteral": 8, "wronglist": 3, "modeltype": 3, "enum": 3, "wrongtype": 3, "forbidden": 2,
+VARIANTS = {"harmless": 2, "nsrebind": 2, "base64": 4, "xsliteral": 8, "wronglist": 3, "modeltype": 3, "enum": 3, "wrongtype": 3, "forbidden": 2,
             "overlong": 2}
 
 
+def directed_stores():
+    """hand-built valid stores with unusual but conformant shapes that neither the SDK examples nor the random
+    generator are likely to contain.  Every node of them gets the *harmless* operator in every tier."""
+    from basyx.aas import model
+    from basyx.aas.model import datatypes as dt
+
+    def ref(v):
+        return model.ExternalReference((model.Key(model.KeyTypes.GLOBAL_REFERENCE, v),))
+    # ---- SubmodelElementLists of every element type, with the optional valueTypeListElement / semanticIdListElement
+    #      (AASd-109 only makes demands for Property and Range lists)
+    sm = model.Submodel("urn:verif:c09:shapes", id_short="shapes")
+    sem = ref("urn:verif:c09:sem")
+    mk = {
+        "Property": lambda: model.Property(None, dt.String, "v", semantic_id=sem),
+        "Range": lambda: model.Range(None, dt.String, "a", "b", semantic_id=sem),
+        "MultiLanguageProperty": lambda: model.MultiLanguageProperty(
+            None, value=model.MultiLanguageTextType({"en": "a"}), semantic_id=sem),
+        "File": lambda: model.File(None, "text/plain", "f.txt", semantic_id=sem),
+        "Blob": lambda: model.Blob(None, "application/octet-stream", b"\x00\x01", semantic_id=sem),
+        "ReferenceElement": lambda: model.ReferenceElement(None, ref("urn:verif:c09:r"), semantic_id=sem),
+        "Capability": lambda: model.Capability(None, semantic_id=sem),
+        "SubmodelElementCollection": lambda: model.SubmodelElementCollection(
+            None, value=[model.Property("inner", dt.Int, 1)], semantic_id=sem),
+        "Entity": lambda: model.Entity(None, model.EntityType.CO_MANAGED_ENTITY, semantic_id=sem),
+        "Operation": lambda: model.Operation(None, semantic_id=sem),
+        "RelationshipElement": lambda: model.RelationshipElement(None, ref("urn:a"), ref("urn:b"), semantic_id=sem),
+        "SubmodelElementList": lambda: model.SubmodelElementList(None, model.Capability, semantic_id=sem),
+    }
+    for i, (name, f) in enumerate(mk.items()):
+        for j, (vt, with_sem, order) in enumerate(((dt.String, True, True), (dt.Int, False, False), (None, False, True))):
+            if vt is None and name in ("Property", "Range"):
+                continue
+            lst = model.SubmodelElementList(
+                f"list{i}x{j}", getattr(model, name), value_type_list_element=vt if name not in ("Property", "Range")
+                else dt.String, semantic_id_list_element=sem if with_sem else None, order_relevant=order)
+            lst.value.add(f())
+            if j == 0:
+                lst.value.add(f())
+            sm.submodel_element.add(lst)
+    # ---- white space at the edges of (and as the whole of) string values
+    ws = model.Submodel("urn:verif:c09:white space ", id_short="whitespace",
+                        description=model.MultiLanguageTextType({"en": " lead", "de": "trail \n"}))
+    for i, v in enumerate([" lead", "trail ", "\ttab\t", " ", "\n", "a  b", " \t\n "]):
+        ws.submodel_element.add(model.Property(f"p{i}", dt.String, v, semantic_id=ref(" key " + str(i)),
+                                               qualifier=[model.Qualifier("q", dt.String, v)],
+                                               extension=[model.Extension("e", dt.String, v)]))
+        ws.submodel_element.add(model.MultiLanguageProperty(
+            f"m{i}", value=model.MultiLanguageTextType({"en": v, "de": v + "x"})))
+    ws.submodel_element.add(model.Range("r", dt.String, " lo", "hi "))
+    cd = model.ConceptDescription("urn:verif:c09:cd", id_short="cd")
+    cd.embedded_data_specifications.append(model.EmbeddedDataSpecification(
+        ref("urn:verif:c09:ds"),
+        model.DataSpecificationIEC61360(model.PreferredNameTypeIEC61360({"en": " name "}),
+                                        short_name=model.ShortNameTypeIEC61360({"en": "\ttab\t"}),
+                                        unit=" u ", symbol=" ", value_format=" f", value=" v ",
+                                        definition=model.DefinitionTypeIEC61360({"en": " d "}))))
+    aas = model.AssetAdministrationShell(
+        model.AssetInformation(model.AssetKind.INSTANCE, global_asset_id=" asset ",
+                               specific_asset_id=[model.SpecificAssetId(" n ", " v ")]), "urn:verif:c09:aas")
+    return [("directed.shapes", model.DictObjectStore([sm])), ("directed.whitespace", model.DictObjectStore([ws, cd, aas]))]
+
+
+CORPUS = os.path.join(os.path.dirname(os.path.dirname(os.path.abspath(__file__))), "corpus", "C09")
+
+
+def write_corpus():
+    """(re)writes corpus/C09/directed.*.{json,xml} from directed_stores(); run by hand on a clean tree"""
+    os.makedirs(CORPUS, exist_ok=True)
+    for name, st in directed_stores():
+        with open(os.path.join(CORPUS, name + ".json"), "w") as f:
+            json.dump(D.write_json(st), f, indent=1)
+        with open(os.path.join(CORPUS, name + ".xml"), "wb") as f:
+            f.write(etree.tostring(D.write_xml(st)))
+
+
+def load_corpus():
+    """-> [(name, fmt, doc)] of the valid documents stored as text (parsed with plain json / lxml)"""
+    out = []
+    if not os.path.isdir(CORPUS):
+        return out
+    for fn in sorted(os.listdir(CORPUS)):
+        path = os.path.join(CORPUS, fn)
+        if fn.startswith("directed.") and fn.endswith(".json"):
+            out.append(("corpus." + fn[:-5], "json", json.load(open(path))))
+        elif fn.startswith("directed.") and fn.endswith(".xml"):
+            out.append(("corpus." + fn[:-4], "xml", etree.fromstring(open(path, "rb").read())))
+    return out
+
+
 def build_sources(rng, n_gen, size_lo=2, size_hi=4):
-    """-> list of dicts {name, fmt, doc, items:[(list, idx, id)], base:{id: canon}} ; plus list of notes"""
+    """-> (sources, notes, prefails)
+    sources: list of dicts {name, fmt, doc, items:[(list, idx, id)], base:{id: canon}, directed: bool};
+    prefails: oracle failures on *undamaged* documents [(fmt, kind, text, data)] - a base document must be read by both
+    readers in both modes before anything is damaged; that is checked here and reported, never assumed."""
     from basyx.aas.examples.data import create_example
     from basyx.aas.examples.data import example_aas_mandatory_attributes, example_submodel_template
     from basyx.aas import model
@@ -31,28 +123,60 @@ def build_sources(rng, n_gen, size_lo=2, size_hi=4):
     for o in example_aas_mandatory_attributes.create_full_example():
         st.add(o)
     stores.append(("examples.template+mandatory", st))
+    # the directed documents are kept as text in corpus/C09 (written once by write_corpus() from directed_stores() on a
+    # clean tree), so that they reach the readers even when the model classes refuse to build them
+    directed_err = None
+    corpus_docs = load_corpus()
+    if not corpus_docs:
+        try:
+            stores += directed_stores()
+        except Exception as e:  # noqa
+            directed_err = f"directed stores could not be built and corpus/C09 is empty: {type(e).__name__}: {e}"
     for i in range(n_gen):
         stores.append((f"aasgen#{i}", aasgen.gen_store(rng, rng.randint(size_lo, size_hi), avoid=GEN_AVOID,
                                                         strings=rng.choice(["plain", "json", "xml"]))))
-    sources, notes = [], []
+    sources, notes, prefails = [], [], []
+    if directed_err:
+        notes.append(directed_err)
+    docs = []
     for name, st in stores:
         for fmt in ("json", "xml"):
             try:
-                doc = D.write_json(st) if fmt == "json" else D.write_xml(st)
+                docs.append((name, fmt, D.write_json(st) if fmt == "json" else D.write_xml(st)))
             except Exception as e:  # noqa - a writer failure belongs to C03/C04/C05
-                notes.append(f"{name}/{fmt}: writer raised {type(e).__name__}")
-                continue
+                notes.append(f"{name}/{fmt}: writer raised {type(e).__name__}; skipped")
+    docs[4:4] = corpus_docs
+    for name, fmt, doc in docs:
+        if True:
             items = D.json_items(doc) if fmt == "json" else D.xml_items(doc)
-            k, r = D.run_reader(fmt, serialise(fmt, doc), False)
-            if k != "ok":
-                notes.append(f"{name}/{fmt}: undamaged document not readable in strict mode ({type(r).__name__}); skipped")
+            data = serialise(fmt, doc)
+            k1, r1 = D.run_reader(fmt, data, True)
+            k2, r2 = D.run_reader(fmt, data, False)
+            if k1 != "ok":
+                prefails.append((fmt, "failsafe-raises:" + type(r1).__name__,
+                                 f"failsafe read of an UNDAMAGED valid document ({name}) raised "
+                                 f"{type(r1).__name__}: {str(r1)[:300]}", data))
                 continue
-            base = D.canon_of(r)
+            if k2 != "ok":
+                if not D.documented(r2):
+                    prefails.append((fmt, "strict-raises:" + type(r2).__name__,
+                                     f"strict read of an UNDAMAGED valid document ({name}) raised undocumented "
+                                     f"{type(r2).__name__}: {str(r2)[:300]}", data))
+                else:   # writer and strict reader disagree about a valid object: C03/C04's clause
+                    notes.append(f"{name}/{fmt}: undamaged document rejected in strict mode ({type(r2).__name__}: "
+                                 f"{str(r2)[:120]}); skipped")
+                continue
+            base = D.canon_of(r2)
+            if D.canon_of(r1) != base:
+                prefails.append((fmt, "strict-differs", f"failsafe and strict read of an UNDAMAGED valid document ({name}) "
+                                                        f"return different objects", data))
+                continue
             if sorted(base) != sorted(i for (_, _, i) in items):
                 notes.append(f"{name}/{fmt}: undamaged read does not return all identifiables; skipped")
                 continue
-            sources.append({"name": name, "fmt": fmt, "doc": doc, "items": items, "base": base})
-    return sources, notes
+            sources.append({"name": name, "fmt": fmt, "doc": doc, "items": items, "base": base,
+                            "directed": name.startswith("directed.") or name.startswith("corpus.")})
+    return sources, notes, prefails
 
 
 def serialise(fmt, doc):
@@ -98,7 +222,7 @@ def small_doc(src, victim, witnesses):
 def enumerate_cases(rng, sources, budget, per_victim_nodes=None):
     """-> list of case specs (src index, victim item, witnesses, relative node path, op, variant, other id).
     All node x operator pairs are enumerated; when their number exceeds `budget` a seeded sample is drawn."""
-    specs = []
+    specs, forced = [], []
     for si, src in enumerate(sources):
         fmt, doc, items = src["fmt"], src["doc"], src["items"]
         sizes = {it: item_size(fmt, doc, it) for it in items}
@@ -123,7 +247,16 @@ def enumerate_cases(rng, sources, budget, per_victim_nodes=None):
                     base = rng.randrange(10 ** 6)
                     for v in range(nv):
                         specs.append((si, victim, tuple(witnesses), path, op, base + v, oid))
+                    if op == "harmless" and fmt == "xml" and src.get("directed"):
+                        # directed: a comment / PI inside a text value with white space at its edges, in every tier
+                        el = D._xget(d, path)
+                        if len(el) == 0 and el.text and el.text != el.text.strip():
+                            b13 = base - base % 13
+                            for k in (4, 5, 6):
+                                for c in range(3):
+                                    forced.append((si, victim, tuple(witnesses), path, op, b13 + k + 13 * c, oid))
     total = len(specs)
+    forced = list(dict.fromkeys(forced))
     if budget and total > budget:
         # stratified by (format, operator): rare operators (duplicated id, wrong list, xs literal, base64, modelType)
         # are run exhaustively up to their share, the rest of the budget is drawn uniformly
@@ -140,6 +273,8 @@ def enumerate_cases(rng, sources, budget, per_victim_nodes=None):
         if len(chosen) < budget:
             chosen += rng.sample(rest, min(len(rest), budget - len(chosen)))
         specs = chosen
+    have = set(specs)
+    specs = specs + [sp for sp in forced if sp not in have]
     return specs, total
 
 
@@ -180,6 +315,8 @@ def run_spec(sources, spec):
         damaged.add(oid)
     if op == "harmless":
         damaged = set()
+    if D.damages_all(op, variant):
+        damaged = set(ids)
     obs, fail = D.oracle(fmt, data, src["base"], damaged, ids, harmless=(op == "harmless"))
     return {"obs": obs, "fail": fail, "ctx": ctx, "data": data if fail else None}
 
